@@ -483,7 +483,7 @@ func headerCorpus() []corpusEntry {
 		{name: "fork-40-below-the-tip", opts: tn, run: func(s *scen) {
 			// the fork-depth rule compares with 2016: a block whose height is 40 below the tip's is stored aside like any
 			// other side block (as a whole block and header first), and when its branch overtakes, the node follows it
-			tip := s.base(150)
+			tip := s.base(132)
 			all := allCoins(s)
 			anc := tip
 			for i := 0; i < 41; i++ {
